@@ -852,6 +852,10 @@ func ruleWBAppend(c *Ctx) {
 				key := fmt.Sprintf("%s/store-buf#%d", fnKey(fn), n)
 				switch v := st.Val.(type) {
 				case *ssa.Call:
+					if chain := bufferChain(fn, bufField); chain[v] {
+						c.OK(key, P.pos(st.Pos()), "the buffer with more appended to it (possibly carried in a local across several appends)")
+						continue
+					}
 					if bi, ok := v.Call.Value.(*ssa.Builtin); ok && bi.Name() == "append" && isBufLoad(v.Call.Args[0]) {
 						c.OK(key, P.pos(st.Pos()), "w.buf = append(w.buf, ...)")
 						continue
